@@ -97,6 +97,11 @@ PROPS = {
                               "c05_exit_lossless_wait", "c05_block_invariant", "c05_every_schedule_invariant",
                               "c05_every_schedule_result", "c05_step_exists", "c05_retire_all_is_reference", "c05_unsound_retire_loses"],
         "runs": [
+            # FftFilterFloat around the exact engine against the wrapper model, eof() answers included: both output streams
+            # left full, the input ends, the backlog is taken at once - input lengths swept over every alignment of
+            # "exactly one batch still unfiltered inside" (the boundary of its eof())
+            {"sub": "blocks", "quick": ["--seed", "{seed}", "--set", "none", "--cases", 0, "--fftfx-probes", 1],
+             "thorough": ["--seed", "{seed}", "--set", "none", "--cases", 0, "--fftfx-probes", 1]},
             # hypothesis of the runner theorems: every library block is a chunk-independent stream function with truthful
             # verdicts (checked on the real blocks: drip-fed vs greedy, verdict acceptor, eof()/constructor probes)
             {"sub": "blocks", "quick": ["--seed", "{seed}", "--mode", "self", "--set", "every", "--cases", 900, "--steps", 40,
@@ -230,6 +235,11 @@ PROPS = {
                               "c09_null_sink", "c09_fft_float_eof_sound", "c09_fft_float_old_eof_unsound",
                               "c09_delay_eof_sound", "c09_delay_old_eof_unsound", "c09_sync_eof_sound", "c09_eof_sound_hand"],
         "runs": [
+            # FftFilterFloat around the exact engine against the wrapper model, eof() answers included: both output streams
+            # left full, the input ends, the backlog is taken at once - input lengths swept over every alignment of
+            # "exactly one batch still unfiltered inside" (the boundary of its eof())
+            {"sub": "blocks", "quick": ["--seed", "{seed}", "--set", "none", "--cases", 0, "--fftfx-probes", 1],
+             "thorough": ["--seed", "{seed}", "--set", "none", "--cases", 0, "--fftfx-probes", 1]},
             {"sub": "blocks", "quick": ["--seed", "{seed}", "--set", "modelled", "--cases", 800, "--steps", 40, "--tag-heavy", 1],
              "thorough": ["--seed", "{seed}", "--set", "modelled", "--cases", 40000, "--steps", 80, "--tag-heavy", 1]},
             {"sub": "blocks", "quick": ["--seed", "{seed}", "--mode", "self", "--set", "every", "--cases", 1400, "--steps", 40, "--fit-probes", 1,
@@ -286,6 +296,11 @@ PROPS = {
                               "c11_fm_identities", "c11_iir_clamped", "c11_fft_block", "c11_hilbert_block",
                               "c11_signal_source_ideal", "c11_fft_float_block"],
         "runs": [
+            # FftFilterFloat around the exact engine against the wrapper model, eof() answers included: both output streams
+            # left full, the input ends, the backlog is taken at once - input lengths swept over every alignment of
+            # "exactly one batch still unfiltered inside" (the boundary of its eof())
+            {"sub": "blocks", "quick": ["--seed", "{seed}", "--set", "none", "--cases", 0, "--fftfx-probes", 1],
+             "thorough": ["--seed", "{seed}", "--set", "none", "--cases", 0, "--fftfx-probes", 1]},
             {"sub": "blocks", "quick": ["--seed", "{seed}", "--set", "dsp", "--cases", 900, "--steps", 30, "--tag-heavy", 1],
              "thorough": ["--seed", "{seed}", "--set", "dsp", "--cases", 40000, "--steps", 60, "--tag-heavy", 1],
              "timeout": 20000},
